@@ -4,6 +4,7 @@ import ast
 from ..model import Func, AnalysisError
 from ..effects import DESTROY, CREATE, USER, UNKNOWN, PURE, LOG
 from ..supergraph import callee_name
+from . import opt
 
 EXPLANATION = (
     'Effect-ordering analysis on the fully inlined interprocedural graph of '
@@ -331,7 +332,8 @@ def r15_6(ctx, rc):
     r16_3(ctx, rc)
     C = ctx.R.cache
     Rd = ctx.E.func(C + '.read_immutable')
-    sg = ctx.E.super(Rd, lambda g: False)
+    sg = ctx.helpers_graph(Rd, stop=(C + opt('._operations_from_json'),
+                                    C + opt('._operation_from_json')))
 
     def mentions(e, text):
         return text in ast.unparse(e)
